@@ -55,7 +55,7 @@ def run(rep, tier, seed, replay):
                 # that the removal did not close, i.e. in the comparison with the model
                 run_ = []
                 continue
-            if op[0] == "o":
+            if op[0] in "oH":
                 r = op.split(":")[1]
                 if r.startswith("b"):
                     b = int(r[1:])
@@ -66,6 +66,8 @@ def run(rep, tier, seed, replay):
                         bad.append((i, "round robin: %d consecutive connections reached backends %s" % (nb, run_[-nb:])))
                 else:
                     run_ = []
+            elif op[0] == "U":
+                pass   # a configuration update with the same policy and hosts: the round robin goes on
             else:
                 run_ = []
                 x = int(op[1:]) if len(op) > 1 else 0
